@@ -2,4 +2,1245 @@ import GoRes.Model.Index
 /-! Helper lemmas for the index model (C13, C14, C12). -/
 namespace GoRes.Index
 
+/-! ## the bytewise order -/
+
+@[simp] theorem ble_nil (b : Bytes) : ble [] b = true := by cases b <;> rfl
+@[simp] theorem ble_cons_nil (a : Nat) (as : Bytes) : ble (a :: as) [] = false := rfl
+theorem ble_cons_cons (a b : Nat) (as bs : Bytes) :
+    ble (a :: as) (b :: bs) = if a < b then true else if a > b then false else ble as bs := rfl
+
+theorem ble_refl (a : Bytes) : ble a a = true := by
+  induction a with
+  | nil => simp
+  | cons x xs ih => simp [ble_cons_cons, ih]
+
+theorem ble_antisymm {a b : Bytes} (h1 : ble a b = true) (h2 : ble b a = true) : a = b := by
+  induction a generalizing b with
+  | nil => cases b <;> simp_all
+  | cons x xs ih =>
+    cases b with
+    | nil => simp at h1
+    | cons y ys =>
+      simp only [ble_cons_cons] at h1 h2
+      grind
+
+theorem ble_trans {a b c : Bytes} (h1 : ble a b = true) (h2 : ble b c = true) : ble a c = true := by
+  induction a generalizing b c with
+  | nil => simp
+  | cons x xs ih =>
+    cases b with
+    | nil => simp at h1
+    | cons y ys =>
+      cases c with
+      | nil => simp at h2
+      | cons z zs =>
+        simp only [ble_cons_cons] at h1 h2 ⊢
+        grind
+
+theorem ble_total (a b : Bytes) : ble a b = true ∨ ble b a = true := by
+  induction a generalizing b with
+  | nil => simp
+  | cons x xs ih =>
+    cases b with
+    | nil => simp
+    | cons y ys =>
+      simp only [ble_cons_cons]
+      have := ih ys
+      grind
+
+theorem ble_append_left (p a b : Bytes) : ble (p ++ a) (p ++ b) = ble a b := by
+  induction p with
+  | nil => rfl
+  | cons x xs ih => simp [ble_cons_cons, ih]
+
+theorem blt_iff {a b : Bytes} : blt a b = true ↔ ble a b = true ∧ a ≠ b := by
+  simp [blt]
+
+theorem blt_irrefl (a : Bytes) : blt a a = false := by simp [blt]
+
+theorem blt_ble {a b : Bytes} (h : blt a b = true) : ble a b = true := (blt_iff.1 h).1
+
+theorem ble_of_not_blt {a b : Bytes} (h : blt a b = false) : ble b a = true := by
+  rcases ble_total a b with h1 | h1
+  · by_cases hab : a = b
+    · subst hab; exact ble_refl a
+    · have : blt a b = true := blt_iff.2 ⟨h1, hab⟩
+      simp [this] at h
+  · exact h1
+
+theorem blt_of_not_blt {a b : Bytes} (h : blt a b = false) (hne : a ≠ b) : blt b a = true :=
+  blt_iff.2 ⟨ble_of_not_blt h, fun e => hne e.symm⟩
+
+theorem blt_asymm {a b : Bytes} (h : blt a b = true) : blt b a = false := by
+  cases hb : blt b a with
+  | false => rfl
+  | true =>
+    have := ble_antisymm (blt_ble h) (blt_ble hb)
+    exact absurd this (blt_iff.1 h).2
+
+theorem blt_of_blt_of_ble {a b c : Bytes} (h1 : blt a b = true) (h2 : ble b c = true) : blt a c = true := by
+  refine blt_iff.2 ⟨ble_trans (blt_ble h1) h2, ?_⟩
+  intro e; subst e
+  exact (blt_iff.1 h1).2 (ble_antisymm (blt_ble h1) h2)
+
+theorem blt_of_ble_of_blt {a b c : Bytes} (h1 : ble a b = true) (h2 : blt b c = true) : blt a c = true := by
+  refine blt_iff.2 ⟨ble_trans h1 (blt_ble h2), ?_⟩
+  intro e; subst e
+  exact (blt_iff.1 h2).2 (ble_antisymm (blt_ble h2) h1)
+
+theorem blt_trans {a b c : Bytes} (h1 : blt a b = true) (h2 : blt b c = true) : blt a c = true :=
+  blt_of_blt_of_ble h1 (blt_ble h2)
+
+theorem blt_append_left (p a b : Bytes) : blt (p ++ a) (p ++ b) = blt a b := by
+  have : (p ++ a != p ++ b) = (a != b) := by
+    rw [Bool.eq_iff_iff]; simp [bne_iff_ne]
+  simp only [blt, ble_append_left, this]
+
+theorem not_ble_of_blt {a b : Bytes} (h : blt a b = true) : ble b a = false := by
+  cases hb : ble b a with
+  | false => rfl
+  | true => exact absurd (ble_antisymm (blt_ble h) hb) (blt_iff.1 h).2
+
+/-! ## prefixes are intervals of the order -/
+
+theorem ble_of_isPrefixOf {p k : Bytes} (h : p.isPrefixOf k = true) : ble p k = true := by
+  induction p generalizing k with
+  | nil => simp
+  | cons x xs ih =>
+    cases k with
+    | nil => simp at h
+    | cons y ys =>
+      simp only [List.isPrefixOf_cons_cons, Bool.and_eq_true, beq_iff_eq] at h
+      simp [ble_cons_cons, h.1, ih h.2]
+
+theorem not_blt_of_isPrefixOf {p k : Bytes} (h : p.isPrefixOf k = true) : blt k p = false := by
+  cases hb : blt k p with
+  | false => rfl
+  | true => have := not_ble_of_blt hb; simp [ble_of_isPrefixOf h] at this
+
+/-- between the prefix itself and a key with the prefix there are only keys with the prefix -/
+theorem isPrefixOf_of_between {p k k' : Bytes} (h1 : ble p k = true) (h2 : ble k k' = true)
+    (h3 : p.isPrefixOf k' = true) : p.isPrefixOf k = true := by
+  induction p generalizing k k' with
+  | nil => simp
+  | cons x xs ih =>
+    cases k with
+    | nil => simp at h1
+    | cons y ys =>
+      cases k' with
+      | nil => simp at h3
+      | cons z zs =>
+        simp only [List.isPrefixOf_cons_cons, Bool.and_eq_true, beq_iff_eq] at h3 ⊢
+        simp only [ble_cons_cons] at h1 h2
+        have := @ih ys zs
+        grind
+
+/-- a key at most `p ++ [255]` without the prefix `p` is below `p` -/
+theorem blt_of_ble_seek {p k : Bytes} (h1 : ble k (p ++ [255]) = true) (h2 : p.isPrefixOf k = false) :
+    blt k p = true := by
+  induction p generalizing k with
+  | nil => simp at h2
+  | cons x xs ih =>
+    cases k with
+    | nil => simp [blt]
+    | cons y ys =>
+      simp only [List.isPrefixOf_cons_cons, Bool.and_eq_false_iff, beq_eq_false_iff_ne] at h2
+      simp only [List.cons_append, ble_cons_cons] at h1
+      have := @ih ys
+      simp only [blt, ble_cons_cons, Bool.and_eq_true, bne_iff_ne, ne_eq, List.cons.injEq, not_and] at this ⊢
+      grind
+
+theorem ble_seek_of_isPrefixOf {p k : Bytes} (h : p.isPrefixOf k = true) (h255 : ∀ c ∈ k.drop p.length, c < 255) :
+    ble k (p ++ [255]) = true := by
+  obtain ⟨r, rfl⟩ := List.isPrefixOf_iff_prefix.1 h
+  rw [ble_append_left]
+  simp only [List.drop_left] at h255
+  cases r with
+  | nil => simp
+  | cons c r => have := h255 c (by simp); simp [ble_cons_cons, this]
+
+/-! ## the value association list -/
+variable {V : Type}
+
+@[simp] theorem vget_nil (k : Bytes) : vget ([] : List (Bytes × V)) k = none := rfl
+theorem vget_cons (e : Bytes × V) (l : List (Bytes × V)) (k : Bytes) :
+    vget (e :: l) k = if e.1 = k then some e.2 else vget l k := by
+  simp only [vget, List.find?_cons]
+  by_cases h : e.1 = k
+  · simp [h]
+  · have : (e.1 == k) = false := by simpa using h
+    simp [h, this]
+
+theorem vget_eq_none_iff (l : List (Bytes × V)) (k : Bytes) : vget l k = none ↔ ∀ e ∈ l, e.1 ≠ k := by
+  induction l with
+  | nil => simp
+  | cons e l ih => simp only [vget_cons]; grind
+
+theorem any_eq_vget_isSome (l : List (Bytes × V)) (k : Bytes) : l.any (·.1 == k) = (vget l k).isSome := by
+  induction l with
+  | nil => simp
+  | cons e l ih => simp only [vget_cons, List.any_cons, ih]; by_cases h : e.1 = k <;> simp [h]
+
+theorem vget_map_set (l : List (Bytes × V)) (k k' : Bytes) (v : V) :
+    vget (l.map (fun e => if e.1 == k then (k, v) else e)) k' =
+      if k' = k then (if (vget l k).isSome then some v else none) else vget l k' := by
+  induction l with
+  | nil => simp
+  | cons e l ih =>
+    simp only [List.map_cons, vget_cons, ih]
+    by_cases h : e.1 = k <;> by_cases h' : k' = k <;> simp [h, h'] <;> grind
+
+theorem vget_append (l l' : List (Bytes × V)) (k : Bytes) :
+    vget (l ++ l') k = (vget l k).or (vget l' k) := by
+  induction l with
+  | nil => simp
+  | cons e l ih => simp only [List.cons_append, vget_cons, ih]; split <;> simp
+
+theorem vget_vset (l : List (Bytes × V)) (k k' : Bytes) (v : V) :
+    vget (vset l k v) k' = if k' = k then some v else vget l k' := by
+  unfold vset
+  rw [any_eq_vget_isSome]
+  cases h : vget l k with
+  | none =>
+    simp only [Option.isSome_none, Bool.false_eq_true, ↓reduceIte, vget_append, vget_cons, vget_nil]
+    by_cases h' : k' = k
+    · subst h'; simp [h]
+    · have h'' : ¬ k = k' := fun e => h' e.symm
+      simp [h', h'']
+  | some w =>
+    simp only [Option.isSome_some, ↓reduceIte, vget_map_set, h]
+    
+theorem vget_vdel (l : List (Bytes × V)) (k k' : Bytes) :
+    vget (vdel l k) k' = if k' = k then none else vget l k' := by
+  induction l with
+  | nil => simp [vdel]
+  | cons e l ih =>
+    simp only [vdel] at ih
+    simp only [vdel, List.filter_cons, vget_cons]
+    by_cases h : e.1 = k <;> simp [h, vget_cons, ih] <;> grind
+
+theorem vget_vput (l : List (Bytes × V)) (k k' : Bytes) (a : Option V) :
+    vget (vput l k a) k' = if k' = k then a else vget l k' := by
+  cases a <;> simp [vput, vget_vset, vget_vdel]
+
+theorem map_fst_vset (l : List (Bytes × V)) (k : Bytes) (v : V) :
+    (vset l k v).map (·.1) = if (vget l k).isSome then l.map (·.1) else l.map (·.1) ++ [k] := by
+  unfold vset
+  rw [any_eq_vget_isSome]
+  split
+  · simp only [List.map_map]
+    apply List.map_congr_left
+    intro e _
+    by_cases h : e.1 = k <;> simp [h]
+  · simp
+
+theorem nodup_vset (l : List (Bytes × V)) (k : Bytes) (v : V) (hd : (l.map (·.1)).Nodup) :
+    ((vset l k v).map (·.1)).Nodup := by
+  rw [map_fst_vset]
+  split
+  · exact hd
+  · rename_i h
+    simp only [Bool.not_eq_true, Option.isSome_eq_false_iff, Option.isNone_iff_eq_none, vget_eq_none_iff] at h
+    rw [List.nodup_append]
+    refine ⟨hd, by simp, ?_⟩
+    simp only [List.mem_map, List.mem_singleton]
+    rintro a ⟨e, he, rfl⟩ b rfl
+    exact h e he
+
+theorem nodup_vdel (l : List (Bytes × V)) (k : Bytes) (hd : (l.map (·.1)).Nodup) :
+    ((vdel l k).map (·.1)).Nodup := by
+  unfold vdel
+  exact (List.filter_sublist.map _).nodup hd
+
+theorem nodup_vput (l : List (Bytes × V)) (k : Bytes) (a : Option V) (hd : (l.map (·.1)).Nodup) :
+    ((vput l k a).map (·.1)).Nodup := by
+  cases a
+  · exact nodup_vdel l k hd
+  · exact nodup_vset l k _ hd
+
+theorem mem_iff_vget (l : List (Bytes × V)) (hd : (l.map (·.1)).Nodup) (id : Bytes) (v : V) :
+    (id, v) ∈ l ↔ vget l id = some v := by
+  induction l with
+  | nil => simp
+  | cons e l ih =>
+    simp only [List.map_cons, List.nodup_cons, List.mem_map, not_exists, not_and] at hd
+    simp only [List.mem_cons, vget_cons, ih hd.2]
+    by_cases h : e.1 = id
+    · simp only [h, ↓reduceIte, Option.some.injEq]
+      constructor
+      · rintro (h1 | h1)
+        · rw [← h1]
+        · have := (ih hd.2).2 h1
+          exact absurd h.symm (hd.1 _ this)
+      · intro h2; left; rw [← h, ← h2]
+    · simp only [h, ↓reduceIte]
+      constructor
+      · rintro (h1 | h1)
+        · rw [← h1] at h; simp at h
+        · exact h1
+      · intro h2; right; exact h2
+
+/-! ## the (key, id) order and insertion sort -/
+
+theorem pairLe_total (a b : Bytes × Bytes) : pairLe a b = true ∨ pairLe b a = true := by
+  unfold pairLe
+  by_cases h : a.1 = b.1
+  · simp only [h, ↓reduceIte]; exact ble_total _ _
+  · have h' : ¬ b.1 = a.1 := fun e => h e.symm
+    simp only [h, h', ↓reduceIte]; exact ble_total _ _
+
+theorem pairLe_trans {a b c : Bytes × Bytes} (h1 : pairLe a b = true) (h2 : pairLe b c = true) :
+    pairLe a c = true := by
+  unfold pairLe at *
+  by_cases hab : a.1 = b.1
+  · rw [if_pos hab] at h1
+    by_cases hbc : b.1 = c.1
+    · rw [if_pos hbc] at h2; rw [if_pos (hab.trans hbc)]; exact ble_trans h1 h2
+    · rw [if_neg hbc] at h2; rw [if_neg (by rw [hab]; exact hbc), hab]; exact h2
+  · rw [if_neg hab] at h1
+    by_cases hbc : b.1 = c.1
+    · rw [if_pos hbc] at h2; rw [if_neg (by rw [← hbc]; exact hab), ← hbc]; exact h1
+    · rw [if_neg hbc] at h2
+      by_cases hac : a.1 = c.1
+      · rw [← hac] at h2; exact absurd (ble_antisymm h1 h2) hab
+      · rw [if_neg hac]; exact ble_trans h1 h2
+
+theorem pairLe_antisymm {a b : Bytes × Bytes} (h1 : pairLe a b = true) (h2 : pairLe b a = true) : a = b := by
+  unfold pairLe at *
+  by_cases hab : a.1 = b.1
+  · simp only [hab, ↓reduceIte] at h1 h2
+    exact Prod.ext hab (ble_antisymm h1 h2)
+  · have h' : ¬ b.1 = a.1 := fun e => hab e.symm
+    simp only [hab, h', ↓reduceIte] at h1 h2
+    exact absurd (ble_antisymm h1 h2) hab
+
+theorem insertSorted_perm (x : Bytes × Bytes) (l : List (Bytes × Bytes)) : (insertSorted x l).Perm (x :: l) := by
+  induction l with
+  | nil => exact List.Perm.refl _
+  | cons y r ih =>
+    simp only [insertSorted]
+    split
+    · exact List.Perm.refl _
+    · exact (List.Perm.cons y ih).trans (List.Perm.swap x y r)
+
+theorem sortPairs_perm (l : List (Bytes × Bytes)) : (sortPairs l).Perm l := by
+  induction l with
+  | nil => exact List.Perm.refl _
+  | cons x l ih =>
+    show (insertSorted x (sortPairs l)).Perm (x :: l)
+    exact (insertSorted_perm x _).trans (List.Perm.cons x ih)
+
+theorem mem_sortPairs {l : List (Bytes × Bytes)} {e : Bytes × Bytes} : e ∈ sortPairs l ↔ e ∈ l :=
+  (sortPairs_perm l).mem_iff
+
+theorem insertSorted_sorted (x : Bytes × Bytes) (l : List (Bytes × Bytes))
+    (h : l.Pairwise (fun a b => pairLe a b = true)) :
+    (insertSorted x l).Pairwise (fun a b => pairLe a b = true) := by
+  induction l with
+  | nil => simp [insertSorted]
+  | cons y r ih =>
+    simp only [insertSorted]
+    rw [List.pairwise_cons] at h
+    split
+    · rename_i hxy
+      refine List.pairwise_cons.2 ⟨?_, List.pairwise_cons.2 h⟩
+      intro z hz
+      rcases List.mem_cons.1 hz with rfl | hz
+      · exact hxy
+      · exact pairLe_trans hxy (h.1 z hz)
+    · rename_i hxy
+      have hyx : pairLe y x = true := by
+        rcases pairLe_total x y with h' | h'
+        · exact absurd h' hxy
+        · exact h'
+      refine List.pairwise_cons.2 ⟨?_, ih h.2⟩
+      intro z hz
+      rcases List.mem_cons.1 ((insertSorted_perm x r).mem_iff.1 hz) with rfl | hz
+      · exact hyx
+      · exact h.1 z hz
+
+theorem sortPairs_sorted (l : List (Bytes × Bytes)) : (sortPairs l).Pairwise (fun a b => pairLe a b = true) := by
+  induction l with
+  | nil => simp [sortPairs]
+  | cons x l ih => exact insertSorted_sorted x _ ih
+
+theorem insertSorted_of_le (x : Bytes × Bytes) (l : List (Bytes × Bytes)) (h : ∀ z ∈ l, pairLe x z = true) :
+    insertSorted x l = x :: l := by
+  cases l with
+  | nil => rfl
+  | cons y r => simp [insertSorted, h y (by simp)]
+
+theorem filter_insertSorted (p : Bytes × Bytes → Bool) (x : Bytes × Bytes) (l : List (Bytes × Bytes))
+    (h : l.Pairwise (fun a b => pairLe a b = true)) :
+    (insertSorted x l).filter p = if p x then insertSorted x (l.filter p) else l.filter p := by
+  induction l with
+  | nil => simp [insertSorted, List.filter_cons]
+  | cons y r ih =>
+    rw [List.pairwise_cons] at h
+    simp only [insertSorted]
+    by_cases hxy : pairLe x y = true
+    · simp only [hxy, ↓reduceIte]
+      by_cases hx : p x = true
+      · simp only [hx, ↓reduceIte]
+        rw [insertSorted_of_le, List.filter_cons, if_pos hx]
+        intro z hz
+        rcases List.mem_cons.1 (List.mem_filter.1 hz).1 with rfl | hz
+        · exact hxy
+        · exact pairLe_trans hxy (h.1 z hz)
+      · simp only [hx, Bool.false_eq_true, ↓reduceIte]
+        rw [List.filter_cons, if_neg hx]
+    · simp only [hxy, Bool.false_eq_true, ↓reduceIte]
+      by_cases hy : p y = true <;> by_cases hx : p x = true <;>
+        simp [hy, hx, insertSorted, hxy, ih h.2]
+
+theorem filter_sortPairs (p : Bytes × Bytes → Bool) (l : List (Bytes × Bytes)) :
+    (sortPairs l).filter p = sortPairs (l.filter p) := by
+  induction l with
+  | nil => simp [sortPairs]
+  | cons x l ih =>
+    show (insertSorted x (sortPairs l)).filter p = _
+    rw [filter_insertSorted p x _ (sortPairs_sorted l), ih, List.filter_cons]
+    split <;> rfl
+
+variable {V : Type}
+
+/-! ## index maintenance -/
+
+theorem updateOne_snd (ix : Idx V) (id : Bytes) (b a : Option V) (db : DB) :
+    (updateOne ix id b a db).2 = (b.bind ix.key != a.bind ix.key) := by
+  unfold updateOne
+  by_cases h : b.bind ix.key = a.bind ix.key <;> simp [h]
+
+theorem updateIndex_fold (idxs : List (Idx V)) (id : Bytes) (b a : Option V) (db : DB) (f : Bool) :
+    idxs.foldl (fun (acc : DB × Bool) idx => let (db', u) := updateOne idx id b a acc.1; (db', acc.2 || u)) (db, f)
+      = (idxs.foldl (fun db ix => (updateOne ix id b a db).1) db,
+         f || idxs.any (fun ix => b.bind ix.key != a.bind ix.key)) := by
+  induction idxs generalizing db f with
+  | nil => simp
+  | cons ix r ih =>
+    simp only [List.foldl_cons, List.any_cons]
+    rw [ih, updateOne_snd, Bool.or_assoc]
+
+theorem updateIndex_fst (idxs : List (Idx V)) (id : Bytes) (b a : Option V) (db : DB) :
+    (updateIndex idxs id b a db).1 = idxs.foldl (fun db ix => (updateOne ix id b a db).1) db := by
+  unfold updateIndex; rw [updateIndex_fold]
+
+theorem updateIndex_snd (idxs : List (Idx V)) (id : Bytes) (b a : Option V) (db : DB) :
+    (updateIndex idxs id b a db).2 = idxs.any (fun ix => b.bind ix.key != a.bind ix.key) := by
+  unfold updateIndex; rw [updateIndex_fold]; simp
+
+/-! ## entries and queries -/
+
+/-- the hit test of a query, on entries -/
+def hit (pre : Bytes) (filter : Bytes → Bool) (e : Bytes × Bytes) : Bool := pre.isPrefixOf e.1 && filter e.1
+
+/-- if the change does not affect the query, the old and the new key give the same hit -/
+theorem hit_eq_of_not_affects (ix : Idx V) (pre : Bytes) (filter : Bytes → Bool) (b a : Option V) (id : Bytes)
+    (h : affectsQuery ix pre (some filter) b a = false) :
+    ((b.bind ix.key).map (fun k => (k, id))).filter (hit pre filter) =
+    ((a.bind ix.key).map (fun k => (k, id))).filter (hit pre filter) := by
+  unfold affectsQuery at h
+  by_cases hk : b.bind ix.key = a.bind ix.key
+  · rw [hk]
+  · simp only [hk, ↓reduceIte, Bool.or_eq_false_iff] at h
+    cases hb : b.bind ix.key <;> cases ha : a.bind ix.key <;> simp_all [hit, Option.filter]
+    rw [if_neg (by grind), if_neg (by grind)]
+
+theorem filterMap_congr' {α β : Type} {f g : α → Option β} {l : List α} (h : ∀ x ∈ l, f x = g x) :
+    l.filterMap f = l.filterMap g := by
+  induction l with
+  | nil => rfl
+  | cons x l ih =>
+    simp only [List.filterMap_cons, h x (by simp)]
+    rw [ih (fun y hy => h y (by simp [hy]))]
+
+theorem entriesOf_filter (ix : Idx V) (vals : List (Bytes × V)) (p : Bytes × Bytes → Bool) :
+    (entriesOf ix vals).filter p = vals.filterMap (fun x => ((ix.key x.2).map (fun k => (k, x.1))).filter p) := by
+  unfold entriesOf
+  rw [List.filter_filterMap]
+
+/-- a change that does not affect the query leaves the hits of the query unchanged -/
+theorem hits_eq_of_not_affects (ix : Idx V) (vals : List (Bytes × V)) (id : Bytes) (after : Option V)
+    (pre : Bytes) (filter : Bytes → Bool) (hd : (vals.map (·.1)).Nodup)
+    (h : affectsQuery ix pre (some filter) (vget vals id) after = false) :
+    (entriesOf ix vals).filter (hit pre filter) = (entriesOf ix (vput vals id after)).filter (hit pre filter) := by
+  have key := hit_eq_of_not_affects ix pre filter (vget vals id) after id h
+  rw [entriesOf_filter, entriesOf_filter]
+  -- every element stored under `id` is the value found by `vget`
+  have hmem : ∀ e ∈ vals, e.1 = id → vget vals id = some e.2 := by
+    intro e he hid
+    exact (mem_iff_vget vals hd id e.2).1 (by rw [← hid]; exact he)
+  cases after with
+  | none =>
+    simp only [vput, vdel]
+    rw [List.filterMap_filter]
+    apply filterMap_congr'
+    intro e he
+    by_cases hid : e.1 = id
+    · have := hmem e he hid
+      rw [this] at key
+      simp only [Option.bind_some, Option.bind_none, Option.map_none, Option.filter_none] at key
+      simp [hid, ← key]
+    · simp [hid]
+  | some a =>
+    simp only [vput, vset]
+    rw [any_eq_vget_isSome]
+    cases hv : vget vals id with
+    | none =>
+      rw [hv] at key
+      simp only [Option.bind_some, Option.bind_none, Option.map_none, Option.filter_none] at key
+      simp [← key]
+    | some b =>
+      rw [hv] at key
+      simp only [Option.bind_some] at key
+      simp only [Option.isSome_some, ↓reduceIte, List.filterMap_map]
+      apply filterMap_congr'
+      intro e he
+      by_cases hid : e.1 = id
+      · have := hmem e he hid
+        rw [hv] at this
+        simp only [Option.some.injEq] at this
+        simp [Function.comp, hid, ← key, this]
+      · simp [Function.comp, hid]
+
+variable {V : Type}
+
+/-! ## the database -/
+
+theorem mem_keys_dbInsert (k v : Bytes) (db : DB) (k' : Bytes) :
+    k' ∈ (dbInsert k v db).map (·.1) ↔ k' = k ∨ k' ∈ db.map (·.1) := by
+  induction db with
+  | nil => simp [dbInsert]
+  | cons e r ih =>
+    obtain ⟨ke, ve⟩ := e
+    simp only [dbInsert]
+    split
+    · rename_i h; subst h; simp
+    · split
+      · simp
+      · simp only [List.map_cons, List.mem_cons, ih]; grind
+
+theorem mem_keys_dbDelete (k : Bytes) (db : DB) (k' : Bytes) :
+    k' ∈ (dbDelete k db).map (·.1) ↔ k' ≠ k ∧ k' ∈ db.map (·.1) := by
+  simp only [dbDelete, List.mem_map, List.mem_filter, bne_iff_ne, ne_eq]
+  constructor
+  · rintro ⟨e, ⟨he, hne⟩, rfl⟩; exact ⟨hne, e, he, rfl⟩
+  · rintro ⟨hne, e, he, rfl⟩; exact ⟨e, ⟨he, hne⟩, rfl⟩
+
+theorem mem_keysOf (name : Bytes) (db : DB) (k : Bytes) :
+    k ∈ keysOf name db ↔ k ∈ db.map (·.1) ∧ (getQuery name []).isPrefixOf k = true := by
+  simp [keysOf, List.mem_filter]
+
+theorem getQuery_prefix_getKey (name key id : Bytes) : (getQuery name []).isPrefixOf (getKey name key id) = true := by
+  rw [List.isPrefixOf_iff_prefix]
+  exact ⟨key ++ 0 :: id, by simp [getQuery, getKey]⟩
+
+/-- index names no one of which (with its colon) is a prefix of the other -/
+def Incomp (a b : Bytes) : Prop :=
+  ¬ (getQuery a []).isPrefixOf (getQuery b []) ∧ ¬ (getQuery b []).isPrefixOf (getQuery a [])
+
+theorem Incomp.symm {a b : Bytes} (h : Incomp a b) : Incomp b a := ⟨h.2, h.1⟩
+
+theorem not_prefix_getKey_of_incomp {a b : Bytes} (h : Incomp a b) (key id : Bytes) :
+    (getQuery a []).isPrefixOf (getKey b key id) = false := by
+  cases hp : (getQuery a []).isPrefixOf (getKey b key id) with
+  | false => rfl
+  | true =>
+    have h1 := List.isPrefixOf_iff_prefix.1 hp
+    have h2 := List.isPrefixOf_iff_prefix.1 (getQuery_prefix_getKey b key id)
+    rcases List.prefix_or_prefix_of_prefix h1 h2 with h3 | h3
+    · exact absurd (List.isPrefixOf_iff_prefix.2 h3) h.1
+    · exact absurd (List.isPrefixOf_iff_prefix.2 h3) h.2
+
+/-- the keys of index `name` after `updateOne` for index `ix` -/
+theorem mem_keysOf_updateOne (name : Bytes) (ix : Idx V) (id : Bytes) (b a : Option V) (db : DB) (k : Bytes) :
+    k ∈ keysOf name (updateOne ix id b a db).1 ↔
+      if b.bind ix.key = a.bind ix.key then k ∈ keysOf name db
+      else (k ∈ keysOf name db ∧ ∀ kb, b.bind ix.key = some kb → k ≠ getKey ix.name kb id) ∨
+           ((getQuery name []).isPrefixOf k = true ∧ ∃ ka, a.bind ix.key = some ka ∧ k = getKey ix.name ka id) := by
+  unfold updateOne
+  by_cases h : b.bind ix.key = a.bind ix.key
+  · simp only [h, ↓reduceIte]
+  · simp only [h, ↓reduceIte]
+    cases hb : b.bind ix.key <;> cases ha : a.bind ix.key <;>
+      simp only [mem_keysOf, mem_keys_dbInsert, mem_keys_dbDelete] <;> grind
+
+/-- an update for an index with an incomparable name does not touch the keys of `name` -/
+theorem mem_keysOf_updateOne_incomp (name : Bytes) (ix : Idx V) (hi : Incomp name ix.name)
+    (id : Bytes) (b a : Option V) (db : DB) (k : Bytes) :
+    k ∈ keysOf name (updateOne ix id b a db).1 ↔ k ∈ keysOf name db := by
+  rw [mem_keysOf_updateOne]
+  split
+  · rfl
+  · constructor
+    · rintro (⟨h, _⟩ | ⟨hp, ka, _, rfl⟩)
+      · exact h
+      · rw [not_prefix_getKey_of_incomp hi] at hp; cases hp
+    · intro h
+      left
+      refine ⟨h, ?_⟩
+      rintro kb _ rfl
+      have := ((mem_keysOf _ _ _).1 h).2
+      rw [not_prefix_getKey_of_incomp hi] at this; cases this
+
+theorem mem_keysOf_fold_incomp (name : Bytes) (l : List (Idx V)) (hi : ∀ ix ∈ l, Incomp name ix.name)
+    (id : Bytes) (b a : Option V) (db : DB) (k : Bytes) :
+    k ∈ keysOf name (l.foldl (fun db ix => (updateOne ix id b a db).1) db) ↔ k ∈ keysOf name db := by
+  induction l generalizing db with
+  | nil => rfl
+  | cons x r ih =>
+    rw [List.foldl_cons, ih (fun ix h => hi ix (by simp [h])), mem_keysOf_updateOne_incomp name x (hi x (by simp))]
+
+theorem mem_keysOf_updateOne_congr (name : Bytes) (ix : Idx V) (id : Bytes) (b a : Option V) (db db' : DB)
+    (h : ∀ k, k ∈ keysOf name db ↔ k ∈ keysOf name db') (k : Bytes) :
+    k ∈ keysOf name (updateOne ix id b a db).1 ↔ k ∈ keysOf name (updateOne ix id b a db').1 := by
+  rw [mem_keysOf_updateOne, mem_keysOf_updateOne, h]
+
+/-- in the fold over all indexes only the index's own update matters -/
+theorem mem_keysOf_fold (ix : Idx V) (l : List (Idx V))
+    (hp : (l.map (·.name)).Pairwise Incomp) (hix : ix ∈ l)
+    (id : Bytes) (b a : Option V) (db : DB) (k : Bytes) :
+    k ∈ keysOf ix.name (l.foldl (fun db ix => (updateOne ix id b a db).1) db) ↔
+      k ∈ keysOf ix.name (updateOne ix id b a db).1 := by
+  induction l generalizing db k with
+  | nil => cases hix
+  | cons x r ih =>
+    rw [List.map_cons, List.pairwise_cons] at hp
+    rw [List.foldl_cons]
+    by_cases hx : ix = x
+    · subst hx
+      apply mem_keysOf_fold_incomp
+      intro ix' h'
+      exact hp.1 _ (List.mem_map_of_mem h')
+    · have hr : ix ∈ r := by
+        rcases List.mem_cons.1 hix with h | h
+        · exact absurd h hx
+        · exact h
+      rw [ih hp.2 hr]
+      apply mem_keysOf_updateOne_congr
+      intro k'
+      exact mem_keysOf_updateOne_incomp ix.name x (hp.1 _ (List.mem_map_of_mem hr)).symm id b a db k'
+
+theorem mem_keysOf_updateIndex (ix : Idx V) (idxs : List (Idx V))
+    (hp : (idxs.map (·.name)).Pairwise Incomp) (hix : ix ∈ idxs)
+    (id : Bytes) (b a : Option V) (db : DB) (k : Bytes) :
+    k ∈ keysOf ix.name (updateIndex idxs id b a db).1 ↔ k ∈ keysOf ix.name (updateOne ix id b a db).1 := by
+  rw [updateIndex_fst]; exact mem_keysOf_fold ix idxs hp hix id b a db k
+
+variable {V : Type}
+
+/-! ## the index invariant -/
+
+/-- what index `ix` should hold for the stored values -/
+def IdxSpec (ix : Idx V) (vals : List (Bytes × V)) (k : Bytes) : Prop :=
+  ∃ id key, (vget vals id).bind ix.key = some key ∧ k = getKey ix.name key id
+
+theorem mem_entriesOf (ix : Idx V) (vals : List (Bytes × V)) (hd : (vals.map (·.1)).Nodup) (e : Bytes × Bytes) :
+    e ∈ entriesOf ix vals ↔ (vget vals e.2).bind ix.key = some e.1 := by
+  simp only [entriesOf, List.mem_filterMap, Option.map_eq_some_iff, Option.bind_eq_some_iff]
+  constructor
+  · rintro ⟨⟨id, v⟩, hx, key, hk, rfl⟩
+    exact ⟨v, (mem_iff_vget vals hd id v).1 hx, hk⟩
+  · rintro ⟨v, hv, hk⟩
+    exact ⟨(e.2, v), (mem_iff_vget vals hd e.2 v).2 hv, e.1, hk, rfl⟩
+
+theorem idxSpec_iff_entries (ix : Idx V) (vals : List (Bytes × V)) (hd : (vals.map (·.1)).Nodup) (k : Bytes) :
+    IdxSpec ix vals k ↔ ∃ e ∈ entriesOf ix vals, k = getKey ix.name e.1 e.2 := by
+  constructor
+  · rintro ⟨id, key, h, rfl⟩
+    exact ⟨(key, id), (mem_entriesOf ix vals hd _).2 h, rfl⟩
+  · rintro ⟨e, he, rfl⟩
+    exact ⟨e.2, e.1, (mem_entriesOf ix vals hd _).1 he, rfl⟩
+
+/-- one mutation keeps the invariant of one index; `hinj`: the deleted key is not the key of
+another id -/
+theorem idxSpec_step (ix : Idx V) (vals : List (Bytes × V)) (db : DB) (id : Bytes) (after : Option V)
+    (hinv : ∀ k, k ∈ keysOf ix.name db ↔ IdxSpec ix vals k)
+    (hinj : ∀ kb, (vget vals id).bind ix.key = some kb → ∀ id' key', (vget vals id').bind ix.key = some key' →
+      getKey ix.name key' id' = getKey ix.name kb id → id' = id)
+    (k : Bytes) :
+    k ∈ keysOf ix.name (updateOne ix id (vget vals id) after db).1 ↔ IdxSpec ix (vput vals id after) k := by
+  rw [mem_keysOf_updateOne]
+  simp only [hinv, IdxSpec, vget_vput]
+  split
+  · rename_i heq
+    constructor
+    · rintro ⟨id', key, h, rfl⟩
+      refine ⟨id', key, ?_, rfl⟩
+      by_cases hid : id' = id
+      · subst hid; simpa [← heq] using h
+      · simpa [hid] using h
+    · rintro ⟨id', key, h, rfl⟩
+      refine ⟨id', key, ?_, rfl⟩
+      by_cases hid : id' = id
+      · subst hid; simpa [← heq] using h
+      · simpa [hid] using h
+  · constructor
+    · rintro (⟨⟨id', key, h, rfl⟩, hne⟩ | ⟨_, ka, hka, rfl⟩)
+      · refine ⟨id', key, ?_, rfl⟩
+        by_cases hid : id' = id
+        · subst hid; exact absurd rfl (hne key h)
+        · simpa [hid] using h
+      · exact ⟨id, ka, by simpa using hka, rfl⟩
+    · rintro ⟨id', key, h, rfl⟩
+      by_cases hid : id' = id
+      · subst hid
+        right
+        exact ⟨getQuery_prefix_getKey _ _ _, key, by simpa using h, rfl⟩
+      · left
+        simp only [hid, ↓reduceIte] at h
+        refine ⟨⟨id', key, h, rfl⟩, ?_⟩
+        intro kb hkb heq
+        exact hid (hinj kb hkb id' key h heq)
+
+variable {V : Type}
+
+theorem sep_inj {k1 k2 id1 id2 : Bytes} (h1 : ∀ c ∈ k1, c ≠ 0) (h2 : ∀ c ∈ k2, c ≠ 0)
+    (h : k1 ++ 0 :: id1 = k2 ++ 0 :: id2) : k1 = k2 ∧ id1 = id2 := by
+  induction k1 generalizing k2 with
+  | nil =>
+    cases k2 with
+    | nil => simpa using h
+    | cons c r =>
+      simp only [List.nil_append, List.cons_append, List.cons.injEq] at h
+      exact absurd h.1.symm (h2 c (by simp))
+  | cons c r ih =>
+    cases k2 with
+    | nil =>
+      simp only [List.nil_append, List.cons_append, List.cons.injEq] at h
+      exact absurd h.1 (h1 c (by simp))
+    | cons c' r' =>
+      simp only [List.cons_append, List.cons.injEq] at h
+      have := ih (fun x hx => h1 x (by simp [hx])) (fun x hx => h2 x (by simp [hx])) h.2
+      exact ⟨by rw [h.1, this.1], this.2⟩
+
+theorem getKey_inj {name k1 k2 id1 id2 : Bytes} (h1 : ∀ c ∈ k1, c ≠ 0) (h2 : ∀ c ∈ k2, c ≠ 0)
+    (h : getKey name k1 id1 = getKey name k2 id2) : k1 = k2 ∧ id1 = id2 := by
+  simp only [getKey, List.append_assoc, List.cons_append, List.append_cancel_left_eq, List.cons.injEq, true_and] at h
+  exact sep_inj h1 h2 h
+
+/-- the index invariant over a history, from any state satisfying it -/
+theorem applyHist_inv (idxs : List (Idx V)) (hp : (idxs.map (·.name)).Pairwise Incomp)
+    (hk : ∀ ix ∈ idxs, ∀ v k, ix.key v = some k → ∀ c ∈ k, c ≠ 0)
+    (hist : List (Bytes × Option V)) (vals : List (Bytes × V)) (db : DB)
+    (hd : (vals.map (·.1)).Nodup)
+    (hinv : ∀ ix ∈ idxs, ∀ k, k ∈ keysOf ix.name db ↔ IdxSpec ix vals k) :
+    ((applyHist idxs hist (vals, db)).1.map (·.1)).Nodup ∧
+    ∀ ix ∈ idxs, ∀ k, k ∈ keysOf ix.name (applyHist idxs hist (vals, db)).2 ↔
+      IdxSpec ix (applyHist idxs hist (vals, db)).1 k := by
+  induction hist generalizing vals db with
+  | nil => exact ⟨hd, hinv⟩
+  | cons x rest ih =>
+    obtain ⟨id, after⟩ := x
+    simp only [applyHist]
+    apply ih _ _ (nodup_vput vals id after hd)
+    intro ix hix k
+    rw [mem_keysOf_updateIndex ix idxs hp hix]
+    apply idxSpec_step ix vals db id after (hinv ix hix)
+    intro kb hkb id' key' hkey' heq
+    obtain ⟨v, _, hv⟩ := Option.bind_eq_some_iff.1 hkb
+    obtain ⟨v', _, hv'⟩ := Option.bind_eq_some_iff.1 hkey'
+    exact (getKey_inj (hk ix hix v' key' hv') (hk ix hix v kb hv) heq).2
+
+/-- rebuilding is a history of creations from the cleared database -/
+theorem rebuild_fold_inv (idxs : List (Idx V)) (hp : (idxs.map (·.name)).Pairwise Incomp)
+    (rest : List (Bytes × V)) (acc : List (Bytes × V)) (db : DB)
+    (hd : ((acc ++ rest).map (·.1)).Nodup)
+    (hinv : ∀ ix ∈ idxs, ∀ k, k ∈ keysOf ix.name db ↔ IdxSpec ix acc k) :
+    ∀ ix ∈ idxs, ∀ k, k ∈ keysOf ix.name
+        (rest.foldl (fun db (x : Bytes × V) => (updateIndex idxs x.1 none (some x.2) db).1) db) ↔
+      IdxSpec ix (acc ++ rest) k := by
+  induction rest generalizing acc db with
+  | nil => simpa using hinv
+  | cons x rest ih =>
+    have hnone : vget acc x.1 = none := by
+      rw [vget_eq_none_iff]
+      intro e he heq
+      simp only [List.map_append, List.map_cons] at hd
+      have := (List.nodup_append.1 hd).2.2 e.1 (List.mem_map_of_mem he) x.1 (by simp)
+      exact this heq
+    have hput : vput acc x.1 (some x.2) = acc ++ [x] := by
+      simp [vput, vset, any_eq_vget_isSome, hnone]
+    rw [List.foldl_cons]
+    have := ih (acc ++ [x]) (updateIndex idxs x.1 none (some x.2) db).1 (by simpa using hd) ?_
+    · simpa using this
+    · intro ix hix k
+      rw [mem_keysOf_updateIndex ix idxs hp hix, ← hnone, ← hput]
+      apply idxSpec_step ix acc db x.1 (some x.2) (hinv ix hix)
+      intro kb hkb
+      simp [hnone] at hkb
+
+theorem keysOf_cleared (idxs : List (Idx V)) (db : DB) (ix : Idx V) (hix : ix ∈ idxs) (k : Bytes) :
+    ¬ k ∈ keysOf ix.name (db.filter (fun e => !idxs.any (fun ix => (getQuery ix.name []).isPrefixOf e.1))) := by
+  rw [mem_keysOf]
+  rintro ⟨hk, hpre⟩
+  simp only [List.mem_map, List.mem_filter, Bool.not_eq_true', List.any_eq_false] at hk
+  obtain ⟨e, ⟨_, hno⟩, rfl⟩ := hk
+  exact hno ix hix hpre
+
+variable {V : Type}
+
+/-! ## the database stays sorted -/
+
+def KeysSorted (db : DB) : Prop := (db.map (·.1)).Pairwise (fun a b => blt a b = true)
+
+theorem dbInsert_sorted (k v : Bytes) (db : DB) (h : KeysSorted db) : KeysSorted (dbInsert k v db) := by
+  unfold KeysSorted at *
+  induction db with
+  | nil => simp [dbInsert]
+  | cons e r ih =>
+    obtain ⟨ke, ve⟩ := e
+    rw [List.map_cons, List.pairwise_cons] at h
+    simp only [dbInsert]
+    split
+    · rename_i heq; subst heq
+      rw [List.map_cons, List.pairwise_cons]; exact h
+    · rename_i hne
+      split
+      · rename_i hlt
+        rw [List.map_cons, List.pairwise_cons]
+        refine ⟨?_, by rw [List.map_cons, List.pairwise_cons]; exact h⟩
+        intro z hz
+        rcases List.mem_cons.1 hz with rfl | hz
+        · exact hlt
+        · exact blt_trans hlt (h.1 z hz)
+      · rename_i hnlt
+        rw [List.map_cons, List.pairwise_cons]
+        refine ⟨?_, ih h.2⟩
+        intro z hz
+        rcases (mem_keys_dbInsert k v r z).1 hz with rfl | hz
+        · exact blt_of_not_blt (by simpa using hnlt) hne
+        · exact h.1 z hz
+
+theorem dbDelete_sorted (k : Bytes) (db : DB) (h : KeysSorted db) : KeysSorted (dbDelete k db) := by
+  unfold KeysSorted dbDelete at *
+  exact List.Pairwise.sublist (List.filter_sublist.map _) h
+  
+theorem updateOne_sorted (ix : Idx V) (id : Bytes) (b a : Option V) (db : DB) (h : KeysSorted db) :
+    KeysSorted (updateOne ix id b a db).1 := by
+  unfold updateOne
+  by_cases hk : b.bind ix.key = a.bind ix.key
+  · simp only [hk, ↓reduceIte]; exact h
+  · simp only [hk, ↓reduceIte]
+    have h1 : KeysSorted (match b.bind ix.key with
+        | some k => dbDelete (getKey ix.name k id) db
+        | none => db) := by
+      split
+      · exact dbDelete_sorted _ _ h
+      · exact h
+    split
+    · exact dbInsert_sorted _ _ _ h1
+    · exact h1
+
+theorem updateIndex_sorted (idxs : List (Idx V)) (id : Bytes) (b a : Option V) (db : DB) (h : KeysSorted db) :
+    KeysSorted (updateIndex idxs id b a db).1 := by
+  rw [updateIndex_fst]
+  induction idxs generalizing db with
+  | nil => exact h
+  | cons x r ih => exact ih _ (updateOne_sorted x id b a db h)
+
+theorem applyHist_sorted (idxs : List (Idx V)) (hist : List (Bytes × Option V)) (s : List (Bytes × V) × DB)
+    (h : KeysSorted s.2) : KeysSorted (applyHist idxs hist s).2 := by
+  induction hist generalizing s with
+  | nil => exact h
+  | cons x rest ih =>
+    obtain ⟨id, after⟩ := x
+    obtain ⟨vals, db⟩ := s
+    simp only [applyHist]
+    exact ih _ (updateIndex_sorted idxs id _ after db h)
+
+
+/-- the order of `<key>\0<id>` is the order of (key, id) when keys contain no separator -/
+theorem sep_ble {k1 k2 : Bytes} (h1 : ∀ c ∈ k1, c ≠ 0) (h2 : ∀ c ∈ k2, c ≠ 0) (id1 id2 : Bytes) :
+    ble (k1 ++ 0 :: id1) (k2 ++ 0 :: id2) = pairLe (k1, id1) (k2, id2) := by
+  induction k1 generalizing k2 with
+  | nil =>
+    cases k2 with
+    | nil => simp [pairLe, ble_cons_cons]
+    | cons c r =>
+      have : 0 < c := Nat.pos_of_ne_zero (h2 c (by simp))
+      simp [pairLe, ble_cons_cons, this]
+  | cons c r ih =>
+    have hc : 0 < c := Nat.pos_of_ne_zero (h1 c (by simp))
+    cases k2 with
+    | nil =>
+      have : ¬ c < 0 := by omega
+      simp [pairLe, ble_cons_cons, hc]
+    | cons c' r' =>
+      have := ih (k2 := r') (fun x hx => h1 x (by simp [hx])) (fun x hx => h2 x (by simp [hx]))
+      simp only [List.cons_append, ble_cons_cons, this]
+      simp only [pairLe, List.cons.injEq, ble_cons_cons]
+      by_cases hlt : c < c'
+      · have : ¬ c = c' := by omega
+        simp [hlt, this]
+      · by_cases hgt : c > c'
+        · have : ¬ c = c' := by omega
+          simp [hlt, hgt, this]
+        · have : c = c' := by omega
+          subst this
+          simp
+
+
+/-! ## the iterator -/
+
+theorem takeWhile_eq_filter_asc (qp : Bytes) (l : List Bytes)
+    (hs : l.Pairwise (fun a b => blt a b = true)) (hge : ∀ k ∈ l, blt k qp = false) :
+    l.takeWhile (fun k => qp.isPrefixOf k) = l.filter (fun k => qp.isPrefixOf k) := by
+  induction l with
+  | nil => rfl
+  | cons k r ih =>
+    rw [List.pairwise_cons] at hs
+    rw [List.takeWhile_cons, List.filter_cons]
+    by_cases hP : qp.isPrefixOf k = true
+    · simp only [hP, ↓reduceIte]
+      rw [ih hs.2 (fun k' h' => hge k' (by simp [h']))]
+    · simp only [hP, Bool.false_eq_true, ↓reduceIte]
+      symm
+      rw [List.filter_eq_nil_iff]
+      intro k' hk' hP'
+      exact hP (isPrefixOf_of_between (ble_of_not_blt (hge k (by simp))) (blt_ble (hs.1 k' hk')) hP')
+
+theorem scan_forward (keys : List Bytes) (qp : Bytes) (hs : keys.Pairwise (fun a b => blt a b = true)) :
+    scan keys qp false = keys.filter (fun k => qp.isPrefixOf k) := by
+  simp only [scan, Bool.false_eq_true, ↓reduceIte]
+  induction keys with
+  | nil => rfl
+  | cons k r ih =>
+    have hs' := List.pairwise_cons.1 hs
+    rw [List.dropWhile_cons]
+    by_cases hlt : blt k qp = true
+    · simp only [hlt, ↓reduceIte]
+      rw [ih hs'.2, List.filter_cons]
+      have : qp.isPrefixOf k = false := by
+        cases hP : qp.isPrefixOf k with
+        | false => rfl
+        | true => rw [not_blt_of_isPrefixOf hP] at hlt; cases hlt
+      simp [this]
+    · simp only [hlt, Bool.false_eq_true, ↓reduceIte]
+      apply takeWhile_eq_filter_asc qp (k :: r) hs
+      intro k' hk'
+      rcases List.mem_cons.1 hk' with rfl | hk'
+      · simpa using hlt
+      · cases h : blt k' qp with
+        | false => rfl
+        | true => exact absurd (blt_trans (hs'.1 k' hk') h) hlt
+
+theorem takeWhile_eq_filter_desc (qp : Bytes) (d : List Bytes)
+    (hs : d.Pairwise (fun a b => blt b a = true))
+    (hlow : ∀ k ∈ d, qp.isPrefixOf k = false → blt k qp = true) :
+    d.takeWhile (fun k => qp.isPrefixOf k) = d.filter (fun k => qp.isPrefixOf k) := by
+  induction d with
+  | nil => rfl
+  | cons k r ih =>
+    rw [List.pairwise_cons] at hs
+    rw [List.takeWhile_cons, List.filter_cons]
+    by_cases hP : qp.isPrefixOf k = true
+    · simp only [hP, ↓reduceIte]
+      rw [ih hs.2 (fun k' h' => hlow k' (by simp [h']))]
+    · simp only [hP, Bool.false_eq_true, ↓reduceIte]
+      symm
+      rw [List.filter_eq_nil_iff]
+      intro k' hk' hP'
+      have h1 := hlow k (by simp) (Bool.not_eq_true _ ▸ hP)
+      have h2 := blt_trans (hs.1 k' hk') h1
+      rw [not_blt_of_isPrefixOf hP'] at h2; cases h2
+
+theorem scan_reverse (keys : List Bytes) (qp : Bytes) (hs : keys.Pairwise (fun a b => blt a b = true))
+    (h255 : ∀ k ∈ keys, qp.isPrefixOf k = true → ∀ c ∈ k.drop qp.length, c < 255) :
+    scan keys qp true = (keys.filter (fun k => qp.isPrefixOf k)).reverse := by
+  simp only [scan, ↓reduceIte]
+  rw [takeWhile_eq_filter_desc]
+  · rw [List.filter_reverse, List.filter_filter]
+    congr 1
+    apply List.filter_congr
+    intro k hk
+    cases hP : qp.isPrefixOf k with
+    | false => rfl
+    | true => simp [ble_seek_of_isPrefixOf hP (h255 k hk hP)]
+  · rw [List.pairwise_reverse]
+    exact List.Pairwise.filter _ hs
+  · intro k hk hP
+    have := (List.mem_filter.1 (List.mem_reverse.1 hk)).2
+    exact blt_of_ble_seek this hP
+
+/-! ## decoding an index key -/
+
+theorem lastNul_go_noNul (l : Bytes) (h : ∀ c ∈ l, c ≠ 0) (i : Nat) (acc : Option Nat) :
+    lastNul.go l i acc = acc := by
+  induction l generalizing i acc with
+  | nil => rfl
+  | cons c r ih =>
+    simp only [lastNul.go]
+    rw [ih (fun x hx => h x (by simp [hx]))]
+    simp [h c (by simp)]
+
+theorem lastNul_go_append (a id : Bytes) (h : ∀ c ∈ id, c ≠ 0) (i : Nat) (acc : Option Nat) :
+    lastNul.go (a ++ 0 :: id) i acc = some (i + a.length) := by
+  induction a generalizing i acc with
+  | nil => simp [lastNul.go, lastNul_go_noNul id h]
+  | cons c r ih =>
+    simp only [List.cons_append, lastNul.go, ih, List.length_cons]
+    congr 1; omega
+
+theorem lastNul_getKey (name key id : Bytes) (h : ∀ c ∈ id, c ≠ 0) :
+    lastNul (getKey name key id) = some (name.length + 1 + key.length) := by
+  unfold lastNul getKey
+  rw [lastNul_go_append _ _ h]
+  simp; omega
+
+theorem getKey_take_drop (name key id : Bytes) :
+    ((getKey name key id).take (name.length + 1 + key.length)).drop (name.length + 1) = key := by
+  have : getKey name key id = (name ++ [58]) ++ key ++ 0 :: id := by simp [getKey]
+  rw [this, List.take_left' (by simp; omega), List.drop_left' (by simp)]
+
+theorem getKey_drop (name key id : Bytes) :
+    (getKey name key id).drop (name.length + 1 + key.length + 1) = id := by
+  have : getKey name key id = (name ++ [58] ++ key ++ [0]) ++ id := by simp [getKey]
+  rw [this, List.drop_left' (by simp; omega)]
+
+theorem getQuery_prefix_getKey_iff (name pre key id : Bytes) :
+    (getQuery name pre).isPrefixOf (getKey name key id) = pre.isPrefixOf (key ++ 0 :: id) := by
+  rw [Bool.eq_iff_iff, List.isPrefixOf_iff_prefix, List.isPrefixOf_iff_prefix]
+  simp only [getQuery, getKey, List.append_assoc, List.cons_append]
+  rw [List.prefix_append_right_inj, List.prefix_cons_inj]
+
+/-- for a key under the query prefix, the length test of `FetchCollection` is the prefix test on the key -/
+theorem qplen_test (name pre key id : Bytes) (h : pre.isPrefixOf (key ++ 0 :: id) = true) :
+    decide ((getQuery name pre).length > name.length + 1 + key.length) = !pre.isPrefixOf key := by
+  rw [Bool.eq_iff_iff]
+  simp only [getQuery, List.length_append, List.length_cons, gt_iff_lt, decide_eq_true_eq,
+    Bool.not_eq_true', ← Bool.not_eq_true, List.isPrefixOf_iff_prefix]
+  rw [List.isPrefixOf_iff_prefix] at h
+  constructor
+  · intro hlt hp
+    have := hp.length_le
+    omega
+  · intro hnp
+    by_cases hle : pre.length ≤ key.length
+    · exact absurd (List.prefix_of_prefix_length_le h (List.prefix_append _ _) hle) hnp
+    · omega
+
+
+/-! ## the loop of `FetchCollection` -/
+
+theorem collect_map (name pre : Bytes) (filter : Bytes → Bool) (L : List (Bytes × Bytes))
+    (hL : ∀ e ∈ L, (∀ c ∈ e.2, c ≠ 0) ∧ (getQuery name pre).isPrefixOf (getKey name e.1 e.2) = true)
+    (offset limit : Int) (hl : 0 < limit) (acc : List Bytes) :
+    collect name (getQuery name pre).length filter (L.map (fun e => getKey name e.1 e.2)) offset limit acc
+      = some (acc ++ (((L.filter (hit pre filter)).drop offset.toNat).take limit.toNat).map (·.2)) := by
+  induction L generalizing offset limit acc with
+  | nil => simp [collect]
+  | cons e r ih =>
+    have hr : ∀ e ∈ r, (∀ c ∈ e.2, c ≠ 0) ∧ (getQuery name pre).isPrefixOf (getKey name e.1 e.2) = true :=
+      fun e' h' => hL e' (by simp [h'])
+    obtain ⟨hnul, hpre⟩ := hL e (by simp)
+    rw [getQuery_prefix_getKey_iff] at hpre
+    have hq := qplen_test name pre e.1 e.2 hpre
+    simp only [List.map_cons, collect, lastNul_getKey name e.1 e.2 hnul, getKey_take_drop, getKey_drop]
+    rw [List.filter_cons]
+    by_cases hp : pre.isPrefixOf e.1 = true
+    · have hq' : ¬ (getQuery name pre).length > name.length + 1 + e.1.length := by
+        simpa [hp] using hq
+      simp only [hq', ↓reduceIte]
+      by_cases hf : filter e.1 = true
+      · simp only [hf, Bool.not_true, Bool.false_eq_true, ↓reduceIte, hit, hp, Bool.and_self]
+        by_cases ho : offset > 0
+        · simp only [ho, ↓reduceIte]
+          rw [ih hr _ _ hl]
+          have : offset.toNat = (offset - 1).toNat + 1 := by omega
+          rw [this, List.drop_succ_cons]
+        · simp only [ho, ↓reduceIte]
+          have : offset.toNat = 0 := by omega
+          rw [this, List.drop_zero]
+          by_cases h1 : limit - 1 = 0
+          · simp only [h1, ↓reduceIte]
+            have : limit.toNat = 1 := by omega
+            simp [this]
+          · simp only [h1, ↓reduceIte]
+            rw [ih hr _ _ (by omega)]
+            have : limit.toNat = (limit - 1).toNat + 1 := by omega
+            rw [this, List.take_succ_cons, List.map_cons]
+            have : offset.toNat = 0 := by omega
+            simp [this]
+      · simp only [hf, Bool.not_false, ↓reduceIte, hit, hp, Bool.and_false, Bool.false_eq_true]
+        rw [ih hr _ _ hl]
+    · have hq' : (getQuery name pre).length > name.length + 1 + e.1.length := by
+        simpa [hp] using hq
+      simp only [hq', ↓reduceIte, hit, hp, Bool.false_and, Bool.false_eq_true]
+      rw [ih hr _ _ hl]
+
+
+/-! ## the index keys in database order are the sorted entries -/
+
+theorem sorted_ext {l1 l2 : List Bytes} (h1 : l1.Pairwise (fun a b => blt a b = true))
+    (h2 : l2.Pairwise (fun a b => blt a b = true)) (h : ∀ x, x ∈ l1 ↔ x ∈ l2) : l1 = l2 := by
+  induction l1 generalizing l2 with
+  | nil =>
+    cases l2 with
+    | nil => rfl
+    | cons b r => exact absurd ((h b).2 (by simp)) (by simp)
+  | cons a r ih =>
+    cases l2 with
+    | nil => exact absurd ((h a).1 (by simp)) (by simp)
+    | cons b r' =>
+      rw [List.pairwise_cons] at h1 h2
+      have hab : a = b := by
+        rcases List.mem_cons.1 ((h a).1 (by simp)) with e | ha
+        · exact e
+        · rcases List.mem_cons.1 ((h b).2 (by simp)) with e | hb
+          · exact e.symm
+          · have := blt_asymm (h1.1 b hb)
+            rw [h2.1 a ha] at this; cases this
+      subst hab
+      congr 1
+      apply ih h1.2 h2.2
+      intro x
+      constructor
+      · intro hx
+        rcases List.mem_cons.1 ((h x).1 (by simp [hx])) with e | hx'
+        · subst e; have := h1.1 x hx; rw [blt_irrefl] at this; cases this
+        · exact hx'
+      · intro hx
+        rcases List.mem_cons.1 ((h x).2 (by simp [hx])) with e | hx'
+        · subst e; have := h2.1 x hx; rw [blt_irrefl] at this; cases this
+        · exact hx'
+
+theorem blt_getKey (name : Bytes) (a b : Bytes × Bytes) (ha : ∀ c ∈ a.1, c ≠ 0) (hb : ∀ c ∈ b.1, c ≠ 0)
+    (hle : pairLe a b = true) (hne : a ≠ b) : blt (getKey name a.1 a.2) (getKey name b.1 b.2) = true := by
+  rw [blt_iff]
+  constructor
+  · have : ∀ e : Bytes × Bytes, getKey name e.1 e.2 = name ++ [58] ++ (e.1 ++ 0 :: e.2) := by
+      intro e; simp [getKey]
+    rw [this a, this b, ble_append_left, sep_ble ha hb]
+    exact hle
+  · intro heq
+    have := getKey_inj ha hb heq
+    exact hne (Prod.ext this.1 this.2)
+
+theorem index_keys_eq (keys : List Bytes) (name : Bytes) (entries : List (Bytes × Bytes))
+    (hs : keys.Pairwise (fun a b => blt a b = true))
+    (hh : ∀ k, (k ∈ keys ∧ (getQuery name []).isPrefixOf k = true) ↔ ∃ e ∈ entries, k = getKey name e.1 e.2)
+    (hn : ∀ e ∈ entries, ∀ c ∈ e.1, c ≠ 0) (hd : entries.Nodup) :
+    keys.filter (fun k => (getQuery name []).isPrefixOf k) =
+      (sortPairs entries).map (fun e => getKey name e.1 e.2) := by
+  apply sorted_ext (List.Pairwise.filter _ hs)
+  · rw [List.pairwise_map]
+    have hnd : (sortPairs entries).Nodup := (sortPairs_perm entries).nodup_iff.2 hd
+    have := List.Pairwise.and (sortPairs_sorted entries) (List.nodup_iff_pairwise_ne.1 hnd)
+    refine List.Pairwise.imp_of_mem ?_ this
+    intro a b ha hb hab
+    exact blt_getKey name a b (hn a (mem_sortPairs.1 ha)) (hn b (mem_sortPairs.1 hb)) hab.1 hab.2
+  · intro k
+    rw [List.mem_filter, hh k, List.mem_map]
+    constructor
+    · rintro ⟨e, he, rfl⟩; exact ⟨e, mem_sortPairs.2 he, rfl⟩
+    · rintro ⟨e, he, rfl⟩; exact ⟨e, mem_sortPairs.1 he, rfl⟩
+
+theorem getQuery_nil_prefix (name pre k : Bytes) (h : (getQuery name pre).isPrefixOf k = true) :
+    (getQuery name []).isPrefixOf k = true := by
+  rw [List.isPrefixOf_iff_prefix] at *
+  refine List.IsPrefix.trans ?_ h
+  exact ⟨pre, by simp [getQuery]⟩
+
+/-- the keys under the query prefix, in database order -/
+theorem query_keys_eq (keys : List Bytes) (name pre : Bytes) (entries : List (Bytes × Bytes))
+    (hs : keys.Pairwise (fun a b => blt a b = true))
+    (hh : ∀ k, (k ∈ keys ∧ (getQuery name []).isPrefixOf k = true) ↔ ∃ e ∈ entries, k = getKey name e.1 e.2)
+    (hn : ∀ e ∈ entries, ∀ c ∈ e.1, c ≠ 0) (hd : entries.Nodup) :
+    keys.filter (fun k => (getQuery name pre).isPrefixOf k) =
+      ((sortPairs entries).filter (fun e => (getQuery name pre).isPrefixOf (getKey name e.1 e.2))).map
+        (fun e => getKey name e.1 e.2) := by
+  have h1 : keys.filter (fun k => (getQuery name pre).isPrefixOf k) =
+      (keys.filter (fun k => (getQuery name []).isPrefixOf k)).filter (fun k => (getQuery name pre).isPrefixOf k) := by
+    rw [List.filter_filter]
+    apply List.filter_congr
+    intro k _
+    cases h : (getQuery name pre).isPrefixOf k with
+    | false => rfl
+    | true => simp [getQuery_nil_prefix name pre k h]
+  rw [h1, index_keys_eq keys name entries hs hh hn hd, List.filter_map]
+  rfl
+
+
+theorem hit_imp_prefix (name pre : Bytes) (filter : Bytes → Bool) (e : Bytes × Bytes) (h : hit pre filter e = true) :
+    (getQuery name pre).isPrefixOf (getKey name e.1 e.2) = true := by
+  rw [getQuery_prefix_getKey_iff]
+  simp only [hit, Bool.and_eq_true] at h
+  rw [List.isPrefixOf_iff_prefix] at *
+  exact List.IsPrefix.trans h.1 (List.prefix_append _ _)
+
+/-- `fetch` in terms of the sorted entries, for a usable limit -/
+theorem fetch_eq (keys : List Bytes) (name pre : Bytes) (entries : List (Bytes × Bytes))
+    (filter : Bytes → Bool) (offset limit : Int) (reverse : Bool)
+    (hs : keys.Pairwise (fun a b => blt a b = true))
+    (hh : ∀ k, (k ∈ keys ∧ (getQuery name []).isPrefixOf k = true) ↔ ∃ e ∈ entries, k = getKey name e.1 e.2)
+    (hn : ∀ e ∈ entries, (∀ c ∈ e.1, c ≠ 0) ∧ (∀ c ∈ e.2, c ≠ 0))
+    (hd : entries.Nodup)
+    (h255 : reverse = true → ∀ e ∈ entries, ∀ c ∈ e.1 ++ e.2, c < 255)
+    (hl : 0 < limit) :
+    collect name (getQuery name pre).length filter (scan keys (getQuery name pre) reverse) offset limit [] =
+      some ((((if reverse then ((sortPairs entries).filter (hit pre filter)).reverse
+                else (sortPairs entries).filter (hit pre filter)).drop offset.toNat).take limit.toNat).map (·.2)) := by
+  have hq := query_keys_eq keys name pre entries hs hh (fun e he => (hn e he).1) hd
+  -- the entries under the query prefix, in order
+  have hmemL : ∀ e ∈ (sortPairs entries).filter (fun e => (getQuery name pre).isPrefixOf (getKey name e.1 e.2)),
+      (∀ c ∈ e.2, c ≠ 0) ∧ (getQuery name pre).isPrefixOf (getKey name e.1 e.2) = true := by
+    intro e he
+    have := List.mem_filter.1 he
+    exact ⟨(hn e (mem_sortPairs.1 this.1)).2, this.2⟩
+  have hfilt : ((sortPairs entries).filter (fun e => (getQuery name pre).isPrefixOf (getKey name e.1 e.2))).filter
+      (hit pre filter) = (sortPairs entries).filter (hit pre filter) := by
+    rw [List.filter_filter]
+    apply List.filter_congr
+    intro e _
+    cases h : hit pre filter e with
+    | false => rfl
+    | true => simp [hit_imp_prefix name pre filter e h]
+  cases reverse with
+  | false =>
+    rw [scan_forward keys _ hs, hq, collect_map name pre filter _ hmemL offset limit hl, hfilt]
+    simp
+  | true =>
+    rw [scan_reverse keys _ hs, hq, ← List.map_reverse,
+      collect_map name pre filter _ (fun e he => hmemL e (List.mem_reverse.1 he)) offset limit hl,
+      List.filter_reverse, hfilt]
+    · simp
+    · intro k hk hP c hc
+      obtain ⟨e, he, rfl⟩ := (hh k).1 ⟨hk, getQuery_nil_prefix name pre k hP⟩
+      have h1 : getKey name e.1 e.2 = (name ++ [58]) ++ (e.1 ++ 0 :: e.2) := by simp [getKey]
+      have h2 : (getQuery name pre).length = (name ++ [58]).length + pre.length := by simp [getQuery]; omega
+      rw [h1, h2, ← List.drop_drop, List.drop_left] at hc
+      have hc' := List.mem_of_mem_drop hc
+      rcases List.mem_append.1 hc' with hc' | hc'
+      · exact h255 rfl e he c (by simp [hc'])
+      · rcases List.mem_cons.1 hc' with rfl | hc'
+        · omega
+        · exact h255 rfl e he c (by simp [hc'])
+
+theorem collect_length_le (name : Bytes) (qplen : Nat) (filter : Bytes → Bool) (l : List Bytes)
+    (offset limit : Int) (hl : 0 < limit) (acc r : List Bytes)
+    (h : collect name qplen filter l offset limit acc = some r) : (r.length : Int) ≤ acc.length + limit := by
+  induction l generalizing offset limit acc with
+  | nil =>
+    simp only [collect, Option.some.injEq] at h
+    subst h; omega
+  | cons k rest ih =>
+    simp only [collect] at h
+    split at h
+    · cases h
+    · split at h
+      · exact ih _ _ hl _ h
+      · split at h
+        · exact ih _ _ hl _ h
+        · split at h
+          · exact ih _ _ hl _ h
+          · split at h
+            · simp only [Option.some.injEq] at h
+              subst h
+              simp only [List.length_append, List.length_cons, List.length_nil]
+              omega
+            · have := ih _ _ (by omega) _ h
+              simp only [List.length_append, List.length_cons, List.length_nil] at this
+              omega
+
 end GoRes.Index
